@@ -373,7 +373,7 @@ fn check_sweep(i: u64, st: &mut Stats) -> Result<(), String> {
     Ok(())
 }
 
-fn desc_sweep(i: u64) -> Value {
+fn desc_sweep(_t: Tier, i: u64) -> Value {
     json!({"train": i / SWEEP_BITS, "packets": sweep_train(i / SWEEP_BITS).iter().map(|p| hex(p)).collect::<Vec<_>>(), "flipped_bit": i % SWEEP_BITS})
 }
 
